@@ -1,6 +1,8 @@
 import OrsoVerif.Model.Kernels
 import OrsoVerif.Lemmas.Frame
 import OrsoVerif.Lemmas.CallSites
+import OrsoVerif.Lemmas.KernelFns
+import OrsoVerif.Generated.KernelFns
 /-!
 # C10 — Native kernels match their Python definitions and are bounds-safe
 
@@ -12,7 +14,7 @@ What is proved instead is `collect_safe_partial`: reads stay inside the rows whe
 collected row is a tuple at least as wide as the first row.
 -/
 namespace C10
-open Kernels CallSites
+open Kernels CallSites KernelSem
 
 variable {α : Type}
 
@@ -94,7 +96,7 @@ theorem effectiveRows_spec (n : Nat) (limit : Int) :
     ∧ ((n : Int) ≤ limit → effectiveRows n limit = n)
     ∧ (0 ≤ limit → limit < (n : Int) → effectiveRows n limit = limit.toNat) := by
   have hiff : Gen.Kernels.limitApplies limit n ↔ (limit ≥ 0 ∧ limit < (n : Int)) := by
-    unfold Gen.Kernels.limitApplies; exact Iff.rfl
+    unfold Gen.Kernels.limitApplies; omega
   unfold effectiveRows
   refine ⟨?_, ?_, ?_⟩
   · intro h; rw [if_neg (by rw [hiff]; omega)]
@@ -106,7 +108,7 @@ theorem earlyExit_iff (nrows ncols : Nat) :
   unfold Gen.Kernels.earlyExit; omega
 
 theorem badIndex_iff (c w : Int) : Gen.Kernels.badIndex c w ↔ (c < 0 ∨ c ≥ w) := by
-  unfold Gen.Kernels.badIndex; exact Iff.rfl
+  unfold Gen.Kernels.badIndex; omega
 
 theorem any_badIndex_false (cols : List Int) (w : Nat) (hc : ∀ c ∈ cols, 0 ≤ c ∧ c < (w : Int)) :
     cols.any (fun c => decide (Gen.Kernels.badIndex c (w : Int))) = false := by
@@ -328,6 +330,292 @@ theorem extract_safe (null : α) (fields : List String) (d : List (String × α)
   rw [CallSites.loop_prefix null fields d fields.length (Nat.le_refl _)]
   simp [DictRow.extract]
 
+/-! ## The kernels as the source has them now, statement by statement (`Gen.KernelFns`)
+
+`harness/extractors/c10_fns.py` translates `collect_cython`, `extract_dict_columns` and `calculate_data_width`
+from the working tree's `compiled.pyx` (de-cythonised by `harness/pyxshadow.py`) on every run: every statement,
+guard, loop bound, unchecked read and write.  The three theorems below say that these translations *are* the
+models the theorems above are about, so `collect_spec`, `collect_oob_raises`, `collect_safe_partial`,
+`extract_spec`, `dataWidth_spec` hold of the code as it is now. -/
+
+theorem eff_cast (L : Nat) (limit : Int) :
+    (if limit ≥ 0 ∧ limit < (L : Int) then limit else (L : Int)) = ((effectiveRows L limit : Nat) : Int) := by
+  obtain ⟨h1, h2, h3⟩ := effectiveRows_spec L limit
+  by_cases h : limit ≥ 0 ∧ limit < (L : Int)
+  · rw [if_pos h, h3 h.1 h.2]; omega
+  · rw [if_neg h]
+    by_cases hn : limit < 0
+    · rw [h1 hn]
+    · rw [h2 (by omega)]
+
+theorem eff_le (L : Nat) (limit : Int) : effectiveRows L limit ≤ L := by
+  obtain ⟨h1, h2, h3⟩ := effectiveRows_spec L limit
+  by_cases h : limit ≥ 0 ∧ limit < (L : Int)
+  · rw [h3 h.1 h.2]; omega
+  · by_cases hn : limit < 0
+    · rw [h1 hn]; exact Nat.le_refl _
+    · rw [h2 (by omega)]; exact Nat.le_refl _
+
+/-- **`collect_cython` as written = the model**, for every input: the early exit, the width taken from the first
+row, the limit clamp, the bounds-check loop, and each of the three write paths (one column, two columns, the
+general nest) with its unchecked reads `rows[i]`, `columns[j]`, `tuple_row[c]` and writes `result[j, i]`:
+same value, same exception, and a read outside an object (`oob`) on exactly the same inputs. -/
+theorem generated_collect_eq_model (null : α) (rows : List (RowObj α)) (cols : List Int) (limit : Int) :
+    toOutcome (Gen.KernelFns.collect_cython null rows cols limit) = collect rows cols limit := by
+  unfold Gen.KernelFns.collect_cython collect
+  simp only [len_list]
+  by_cases hee : ((rows.length : Int) = 0 ∨ (cols.length : Int) = 0)
+  · have hee' : Gen.Kernels.earlyExit (rows.length : Nat) (cols.length : Nat) :=
+      (earlyExit_iff rows.length cols.length).mpr (by omega)
+    rw [if_pos hee, if_pos hee']
+    show Outcome.ok (npEmpty null (cols.length : Int) (rows.length : Int)) = _
+    congr 1
+    unfold npEmpty
+    rcases hee with h | h
+    · have : rows.length = 0 := by omega
+      simp [this, List.map_const']
+    · have : cols = [] := List.length_eq_zero_iff.mp (by omega)
+      subst this; simp
+  · have hee' : ¬ Gen.Kernels.earlyExit (rows.length : Nat) (cols.length : Nat) := by
+      rw [earlyExit_iff]; omega
+    rw [if_neg hee, if_neg hee']
+    cases rows with
+    | nil => simp at hee
+    | cons first rest =>
+      rw [uget_cons_zero]
+      simp only [eff_cast, len_row]
+      show toOutcome ((forRange (cols.length : Int) () fun (_ : Unit) j => (uget cols j) >>= fun col_idx =>
+          if col_idx < 0 ∨ col_idx ≥ (first.cells.length : Int) then (throw (Fault.raises "IndexError") : K Unit) else pure ()) >>= _) = _
+      rw [check_loop (fun c => c < 0 ∨ c ≥ (first.cells.length : Int))]
+      have hbad : (cols.any fun c => decide (Gen.Kernels.badIndex c (first.cells.length : Int)))
+          = (cols.any fun c => decide (c < 0 ∨ c ≥ (first.cells.length : Int))) := by
+        have hf : (fun c => decide (Gen.Kernels.badIndex c (first.cells.length : Int)))
+            = (fun c => decide (c < 0 ∨ c ≥ (first.cells.length : Int))) := by
+          funext c; exact decide_eq_decide.mpr (badIndex_iff c _)
+        rw [hf]
+      simp only [hbad]
+      by_cases hany : (cols.any fun c => decide (c < 0 ∨ c ≥ (first.cells.length : Int))) = true
+      · rw [if_pos hany, if_pos hany]; rfl
+      · rw [if_neg hany, if_neg hany, paths_agree]
+        have hc : ∀ c ∈ cols, 0 ≤ c := by
+          intro c hcm
+          have h1 : (cols.any fun c => decide (c < 0 ∨ c ≥ (first.cells.length : Int))) = false := by
+            cases h : (cols.any fun c => decide (c < 0 ∨ c ≥ (first.cells.length : Int))) with
+            | false => rfl
+            | true => exact absurd h hany
+          have := (List.any_eq_false.mp h1) c hcm
+          simp only [decide_eq_true_eq] at this
+          omega
+        have hn := eff_le (first :: rest).length limit
+        show toOutcome (if (cols.length : Int) = 1 then _ else _) = _
+        match cols, hee, hc with
+        | [], hee, _ => simp at hee
+        | [c0], _, hc =>
+          have h0 : 0 ≤ c0 := hc c0 (by simp)
+          rw [if_pos (by simp), uget_cons_zero, ok_bind]
+          rw [write_one null (first :: rest) c0 h0 _ hn]
+          generalize pathN _ _ = o
+          cases o <;> rfl
+        | [c0, c1], _, hc =>
+          have h0 : 0 ≤ c0 := hc c0 (by simp)
+          have h1 : 0 ≤ c1 := hc c1 (by simp)
+          rw [if_neg (by simp), if_pos (by simp), uget_cons_zero, uget_cons_one, ok_bind, ok_bind]
+          rw [write_two null (first :: rest) c0 c1 h0 h1 _ hn]
+          generalize pathN _ _ = o
+          cases o <;> rfl
+        | c0 :: c1 :: c2 :: cs, _, hc =>
+          rw [if_neg (by simp only [List.length_cons]; omega), if_neg (by simp only [List.length_cons]; omega)]
+          rw [write_general null (first :: rest) (c0 :: c1 :: c2 :: cs) hc _ hn]
+          generalize pathN _ _ = o
+          cases o <;> rfl
+
+/-- **`extract_dict_columns` as written** never leaves the field tuple or the list it allocates, and returns the
+dictionary's value, or null, for each requested field in order. -/
+theorem generated_extract_spec (null : α) (d : List (String × α)) (fields : List String) :
+    Gen.KernelFns.extract_dict_columns null d fields = .ok (DictRow.extract null fields d) := by
+  unfold Gen.KernelFns.extract_dict_columns
+  simp only [len_list]
+  rw [forRange_uget fields fields.length (Nat.le_refl _), List.take_length]
+  have hpre : pyRepeat null (fields.length : Int) = ([] : List α) ++ List.replicate fields.length null := by
+    simp [pyRepeat]
+  rw [hpre]
+  show (fields.zipIdx ([] : List α).length).foldlM _ _ = _
+  rw [fill_list null (fun f => (DictRow.lookup f d).getD null) _ ?_ fields []]
+  · simp [DictRow.extract]
+  · intro s p
+    cases DictRow.lookup p.1 d <;> rfl
+
+
+/-- …which is the hand-written loop of `Model/Kernels.lean`. -/
+theorem generated_extract_eq_model (null : α) (d : List (String × α)) (fields : List String) :
+    Gen.KernelFns.extract_dict_columns null d fields = ofOpt (extractLoop null fields d) := by
+  rw [generated_extract_spec, extract_safe]; rfl
+
+/-- **`calculate_data_width` as written = the model**: the floor, the null test, the update test. -/
+theorem generated_width_eq_model (strLen : α → Nat) (vals : List (Option α)) :
+    Gen.KernelFns.calculate_data_width strLen vals = .ok ((dataWidth (vals.map (Option.map strLen)) : Nat) : Int) := by
+  unfold Gen.KernelFns.calculate_data_width dataWidth forEach
+  have hf : ((4 : Int)) = ((Gen.Kernels.widthFloor : Nat) : Int) := rfl
+  rw [hf]
+  apply width_fold strLen
+  intro acc v
+  cases v with
+  | none => rfl
+  | some x =>
+    simp only [Option.map_some, widthStep_some]
+    show (Except.ok (if ((strLen x : Nat) : Int) > (acc : Int) then ((strLen x : Nat) : Int) else (acc : Int)) : K Int) = _
+    by_cases h : strLen x > acc
+    · have : ((strLen x : Nat) : Int) > (acc : Int) := by omega
+      rw [if_pos this, if_pos h]
+    · have : ¬ (((strLen x : Nat) : Int) > (acc : Int)) := by omega
+      rw [if_neg this, if_neg h]
+
+
+/-- The statement of the property for `collect_cython` as written: `result[i][j] = rows[j][columns[i]]` for the
+first `limit` rows. -/
+theorem generated_collect_spec [Inhabited α] (null : α) (first : RowObj α) (rest : List (RowObj α)) (cols : List Int)
+    (limit : Int) (w : Nat)
+    (hw : ∀ r ∈ first :: rest, r.isTuple = true ∧ r.cells.length = w)
+    (hc : ∀ c ∈ cols, 0 ≤ c ∧ c < (w : Int)) (hne : cols ≠ []) :
+    Gen.KernelFns.collect_cython null (first :: rest) cols limit =
+      .ok (cols.map fun c =>
+        ((first :: rest).take (effectiveRows (first :: rest).length limit)).map fun r => r.cells[c.toNat]!) := by
+  have h := generated_collect_eq_model null (first :: rest) cols limit
+  rw [collect_spec first rest cols limit w hw hc hne] at h
+  cases hx : Gen.KernelFns.collect_cython null (first :: rest) cols limit with
+  | ok m => rw [hx] at h; simp only [toOutcome, Outcome.ok.injEq] at h; rw [h]
+  | error f => rw [hx] at h; cases f <;> simp [toOutcome] at h
+
+/-- …a column index outside `0..width-1` raises `IndexError` in the code as written… -/
+theorem generated_collect_oob_raises (null : α) (first : RowObj α) (rest : List (RowObj α)) (cols : List Int)
+    (limit : Int) (c : Int) (hc : c ∈ cols) (hbad : c < 0 ∨ (first.cells.length : Int) ≤ c) :
+    Gen.KernelFns.collect_cython null (first :: rest) cols limit = .error (.raises "IndexError") := by
+  have h := generated_collect_eq_model null (first :: rest) cols limit
+  rw [collect_oob_raises first rest cols limit c hc hbad] at h
+  cases hx : Gen.KernelFns.collect_cython null (first :: rest) cols limit with
+  | ok m => rw [hx] at h; simp [toOutcome] at h
+  | error f =>
+    rw [hx] at h
+    cases f with
+    | raises cls => simp only [toOutcome, Outcome.raises.injEq] at h; rw [h]
+    | oob => simp [toOutcome] at h
+
+/-- …and no read or write of the code as written leaves an object when every collected row is a tuple at least
+as wide as the first (the full statement is false: `collect_ragged_oob`, `collect_nontuple_oob`). -/
+theorem generated_collect_safe_partial (null : α) (rows : List (RowObj α)) (cols : List Int) (limit : Int)
+    (h : ∀ first ∈ rows.head?, ∀ r ∈ rows, r.isTuple = true ∧ first.cells.length ≤ r.cells.length) :
+    Gen.KernelFns.collect_cython null rows cols limit ≠ .error .oob := by
+  intro hx
+  have he := generated_collect_eq_model null rows cols limit
+  rw [hx] at he
+  exact collect_safe_partial rows cols limit h he.symm
+
+/-- The counterexamples, on the code as written. -/
+theorem generated_collect_unsafe :
+    Gen.KernelFns.collect_cython 0 [⟨true, [10, 11]⟩, ⟨true, [20]⟩] [1] (-1) = (.error .oob : K (List (List Nat)))
+    ∧ Gen.KernelFns.collect_cython 0 [⟨false, [10, 11]⟩] [0] (-1) = (.error .oob : K (List (List Nat))) := by
+  decide
+
+/-- **Exactly when the collector reads outside a row**: there is something to collect, every requested index passes
+the one-time check against the *first* row's width, and among the rows that are collected there is one that is not
+a tuple or is too short for a requested index. -/
+theorem collect_oob_iff (rows : List (RowObj α)) (cols : List Int) (limit : Int) :
+    collect rows cols limit = .oob ↔
+      ∃ first rest, rows = first :: rest ∧ cols ≠ [] ∧ (∀ c ∈ cols, 0 ≤ c ∧ c < (first.cells.length : Int))
+        ∧ ∃ r ∈ rows.take (effectiveRows rows.length limit),
+            (r.isTuple = false ∨ ∃ c ∈ cols, (r.cells.length : Int) ≤ c) := by
+  unfold collect
+  by_cases hee : Gen.Kernels.earlyExit (rows.length : Nat) (cols.length : Nat)
+  · rw [if_pos hee]
+    have h0 := (earlyExit_iff rows.length cols.length).mp hee
+    constructor
+    · intro h; cases h
+    · rintro ⟨first, rest, hr, hne, _⟩
+      subst hr
+      rcases h0 with h | h
+      · simp at h
+      · exact absurd (List.length_eq_zero_iff.mp h) hne
+  · rw [if_neg hee]
+    have h0 : ¬ (rows.length = 0 ∨ cols.length = 0) := fun h => hee ((earlyExit_iff _ _).mpr h)
+    cases rows with
+    | nil => simp at h0
+    | cons first rest =>
+      have hne : cols ≠ [] := by intro h; subst h; simp at h0
+      simp only
+      by_cases hany : cols.any (fun c => decide (Gen.Kernels.badIndex c ((first.cells.length : Nat) : Int))) = true
+      · rw [if_pos hany]
+        constructor
+        · intro h; cases h
+        · rintro ⟨f, r, hr, _, hin, _⟩
+          obtain ⟨rfl, rfl⟩ := List.cons.inj hr
+          obtain ⟨c, hc, hb⟩ := List.any_eq_true.mp hany
+          simp only [decide_eq_true_eq, badIndex_iff] at hb
+          have := hin c hc
+          omega
+      · rw [if_neg hany, paths_agree]
+        have hin : ∀ c ∈ cols, 0 ≤ c ∧ c < (first.cells.length : Int) := by
+          intro c hc
+          have h1 : cols.any (fun c => decide (Gen.Kernels.badIndex c ((first.cells.length : Nat) : Int))) = false := by
+            cases h : cols.any (fun c => decide (Gen.Kernels.badIndex c ((first.cells.length : Nat) : Int))) with
+            | false => rfl
+            | true => exact absurd h hany
+          have := (List.any_eq_false.mp h1) c hc
+          simp only [decide_eq_true_eq, badIndex_iff] at this
+          omega
+        constructor
+        · intro h
+          cases hp : pathN ((first :: rest).take (effectiveRows (first :: rest).length limit)) (cols.map Int.toNat) with
+          | some m => rw [hp] at h; cases h
+          | none =>
+            obtain ⟨r, hr, c, hc, hbad⟩ := (pathN_none_iff _ _).mp hp
+            obtain ⟨c', hc', rfl⟩ := List.mem_map.mp hc
+            refine ⟨first, rest, rfl, hne, hin, r, hr, ?_⟩
+            rcases hbad with hb | hb
+            · exact Or.inl hb
+            · exact Or.inr ⟨c', hc', by have := hin c' hc'; omega⟩
+        · rintro ⟨f, r0, hr, _, _, r, hr', hbad⟩
+          obtain ⟨rfl, rfl⟩ := List.cons.inj hr
+          have : pathN ((first :: rest).take (effectiveRows (first :: rest).length limit)) (cols.map Int.toNat) = none := by
+            rw [pathN_none_iff]
+            rcases hbad with hb | ⟨c, hc, hb⟩
+            · obtain ⟨c, hc⟩ := List.exists_mem_of_ne_nil cols hne
+              exact ⟨r, hr', c.toNat, List.mem_map.mpr ⟨c, hc, rfl⟩, Or.inl hb⟩
+            · exact ⟨r, hr', c.toNat, List.mem_map.mpr ⟨c, hc, rfl⟩, Or.inr (by have := hin c hc; omega)⟩
+          rw [this]
+
+/-- …and so for `collect_cython` as written. -/
+theorem generated_collect_oob_iff (null : α) (rows : List (RowObj α)) (cols : List Int) (limit : Int) :
+    Gen.KernelFns.collect_cython null rows cols limit = .error .oob ↔
+      ∃ first rest, rows = first :: rest ∧ cols ≠ [] ∧ (∀ c ∈ cols, 0 ≤ c ∧ c < (first.cells.length : Int))
+        ∧ ∃ r ∈ rows.take (effectiveRows rows.length limit),
+            (r.isTuple = false ∨ ∃ c ∈ cols, (r.cells.length : Int) ≤ c) := by
+  rw [← collect_oob_iff, ← generated_collect_eq_model null rows cols limit]
+  cases Gen.KernelFns.collect_cython null rows cols limit with
+  | ok m => simp [toOutcome]
+  | error f => cases f <;> simp [toOutcome]
+
+/-- The display-width helper as written gives the longest rendered non-null value, but at least four. -/
+theorem generated_width_spec (strLen : α → Nat) (vals : List (Option α)) :
+    ∃ w : Nat, Gen.KernelFns.calculate_data_width strLen vals = .ok (w : Int)
+      ∧ 4 ≤ w ∧ (∀ v, some v ∈ vals → strLen v ≤ w) ∧ (w = 4 ∨ ∃ v, some v ∈ vals ∧ strLen v = w) := by
+  refine ⟨dataWidth (vals.map (Option.map strLen)), generated_width_eq_model strLen vals, ?_⟩
+  obtain ⟨h1, h2, h3⟩ := dataWidth_spec (vals.map (Option.map strLen))
+  refine ⟨h1, ?_, ?_⟩
+  · intro v hv
+    exact h2 (strLen v) (List.mem_map.mpr ⟨some v, hv, rfl⟩)
+  · rcases h3 with h | h
+    · exact Or.inl h
+    · right
+      obtain ⟨o, ho, hm⟩ := List.mem_map.mp h
+      cases o with
+      | none => simp at hm
+      | some v => exact ⟨v, ho, by simpa using hm⟩
+
+example : Gen.KernelFns.collect_cython 0 [⟨true, [1, 2, 3]⟩, ⟨true, [4, 5, 6]⟩, ⟨true, [7, 8, 9]⟩] [2, 0] 2
+    = (.ok [[3, 6], [1, 4]] : K (List (List Nat))) := by decide
+example : Gen.KernelFns.extract_dict_columns 0 [("z", 3), ("x", 1)] ["x", "y", "z"] = (.ok [1, 0, 3] : K (List Nat)) := by decide
+example : Gen.KernelFns.calculate_data_width (fun (n : Nat) => n) [some 2, none, some 7] = .ok 7 := by decide
+
 /-- Non-vacuity. -/
 example : collect [⟨true, [1, 2, 3]⟩, ⟨true, [4, 5, 6]⟩, ⟨true, [7, 8, 9]⟩] [2, 0] 2
     = (.ok [[3, 6], [1, 4]] : Outcome Nat) := by decide
@@ -350,7 +638,7 @@ kernel collect exactly the rows of the plain-Python definition (`specRows`). -/
 theorem norm_limit_spec (n : Nat) (hn : (n : Int) < 2147483648) (limit : Option Int) :
     limitOk n limit (normLimit limit n) := by
   have hiff : ∀ l : Int, Gen.Kernels.limitApplies l n ↔ (l ≥ 0 ∧ l < (n : Int)) := by
-    intro l; unfold Gen.Kernels.limitApplies; exact Iff.rfl
+    intro l; unfold Gen.Kernels.limitApplies; omega
   -- every `if` is decided by linear arithmetic in each of the cases below, whatever shape the
   -- generated guards have
   cases limit with
@@ -386,9 +674,10 @@ theorem public_collect_spec [Inhabited α] (names : List String) (first : RowObj
   have hine : idxs ≠ [] := by
     intro h; rw [h] at hlen; exact hne (List.length_eq_zero_iff.mp hlen.symm)
   have hok := norm_limit_spec (first :: rest).length hn limit
-  unfold publicCollect
+  have hconv : Gen.CallSites.indexConvChecked = true := rfl
+  unfold publicCollect publicCollectWith
   rw [hres]
-  simp only [fits_any_false idxs w hw32 hc, Bool.false_eq_true, if_false]
+  simp only [hconv, fits_any_false idxs w hw32 hc, Bool.false_eq_true, and_false, if_false, if_true]
   cases hnl : normLimit limit (first :: rest).length with
   | none => rw [hnl] at hok; exact absurd hok (by simp [limitOk])
   | some l =>
@@ -408,9 +697,10 @@ theorem public_collect_single_spec [Inhabited α] (names : List String) (first :
   have hres' : [c].mapM (resolve names) = some [i] := by simp [hres]
   have hc' : ∀ x ∈ [i], 0 ≤ x ∧ x < (w : Int) := by intro x hx; simp at hx; subst hx; exact hc
   have hok := norm_limit_spec (first :: rest).length hn limit
-  unfold publicCollect
+  have hconv : Gen.CallSites.indexConvChecked = true := rfl
+  unfold publicCollect publicCollectWith
   rw [hres']
-  simp only [fits_any_false [i] w hw32 hc', Bool.false_eq_true, if_false]
+  simp only [hconv, fits_any_false [i] w hw32 hc', Bool.false_eq_true, and_false, if_false, if_true]
   cases hnl : normLimit limit (first :: rest).length with
   | none => rw [hnl] at hok; exact absurd hok (by simp [limitOk])
   | some l =>
@@ -428,9 +718,10 @@ theorem public_collect_empty (names : List String) (cols : List ColRef) (idxs : 
   have hok := norm_limit_spec 0 (by decide) limit
   have hany : idxs.any (fun i => decide (¬ FitsC i)) = false := by
     rw [List.any_eq_false]; intro c hcm; simp [hfit c hcm]
-  unfold publicCollect
+  have hconv : Gen.CallSites.indexConvChecked = true := rfl
+  unfold publicCollect publicCollectWith
   rw [hres]
-  simp only [hany, Bool.false_eq_true, if_false, List.length_nil]
+  simp only [hconv, hany, Bool.false_eq_true, and_false, if_false, if_true, List.length_nil]
   cases hnl : normLimit limit 0 with
   | none => rw [hnl] at hok; exact absurd hok (by simp [limitOk])
   | some l =>
@@ -447,11 +738,12 @@ theorem public_collect_bad_index_raises (names : List String) (first : RowObj α
     (c : Int) (hc : c ∈ idxs) (hbad : c < 0 ∨ (first.cells.length : Int) ≤ c) :
     ∃ cls, publicCollect names (first :: rest) cols single limit = .raises cls := by
   have hok := norm_limit_spec (first :: rest).length hn limit
-  unfold publicCollect
+  have hconv : Gen.CallSites.indexConvChecked = true := rfl
+  unfold publicCollect publicCollectWith
   rw [hres]
   by_cases hany : idxs.any (fun i => decide (¬ FitsC i)) = true
-  · exact ⟨"OverflowError", by simp only [hany, if_true]⟩
-  · simp only [hany, Bool.false_eq_true, if_false]
+  · exact ⟨"OverflowError", by simp only [hconv, hany, and_self, if_true]⟩
+  · simp only [hconv, hany, Bool.false_eq_true, and_false, if_false, if_true]
     cases hnl : normLimit limit (first :: rest).length with
     | none => rw [hnl] at hok; exact absurd hok (by simp [limitOk])
     | some l =>
@@ -477,7 +769,7 @@ theorem public_collect_names (names : List String) (s : String) :
       induction pre with
       | nil => simp [resolve, hnone]
       | cons p ps ih => simp only [List.cons_append, List.mapM_cons, ih]; cases resolve names p <;> rfl
-    unfold publicCollect
+    unfold publicCollect publicCollectWith
     rw [this]
   · intro k hk
     simp only [resolve, Option.map_eq_some_iff] at hk
@@ -485,13 +777,33 @@ theorem public_collect_names (names : List String) (s : String) :
     have := indexOf_spec names s k' hk'
     exact ⟨by simp, by simpa using this.1, by simpa using this.2⟩
 
+/-- Why the conversion has to reject: with a conversion that wraps (`.astype(numpy.int32)`), position `2**32` of
+a one-column frame is answered with column 0's data instead of an exception. -/
+theorem wrapping_conversion_counterexample :
+    publicCollectWith false ["a"] [⟨true, [7]⟩, ⟨true, [8]⟩] [.idx 4294967296] true none = (.one [7, 8] : PubOutcome Nat)
+    ∧ publicCollectWith true ["a"] [⟨true, [7]⟩, ⟨true, [8]⟩] [.idx 4294967296] true none
+        = (.raises "OverflowError" : PubOutcome Nat) := by
+  decide
+
 /-- **Field extraction through the caller**: a row built from a dictionary through a class made by
 `Row.create_class(fields)` holds the dictionary's value, or null, for each field in order — and a
 row built from a tuple is that tuple. -/
-theorem row_from_dict_spec (null : α) (fields : List String) (d : List (String × α)) (t : List α) :
-    rowNew null (createClass fields false) (.dict d) = some (fields.map fun f => (DictRow.lookup f d).getD null)
+theorem row_from_dict_spec (null : α) (fields : List String) (d : List (String × α)) (t : List α) (exact : Bool) :
+    rowNew null (createClass fields false) (.dict exact d) = some (fields.map fun f => (DictRow.lookup f d).getD null)
     ∧ ∀ b, rowNew null (createClass fields b) (.tuple t) = some t := by
-  refine ⟨rfl, fun _ => rfl⟩
+  have h1 : Gen.CallSites.rowGuardAdmitsSubclass = true := rfl
+  have h2 : Gen.CallSites.rowCopiesSubclass = true := rfl
+  refine ⟨?_, fun _ => rfl⟩
+  unfold rowNew rowNewWith
+  simp [h1, h2, createClass, DictRow.extract]
+
+/-- Why both halves of the guard are needed: a test that admits exact dictionaries only (`type(data) is dict`), or
+one that admits subclasses but hands them to the helper uncopied, does not extract an `OrderedDict`. -/
+theorem row_guard_counterexample :
+    rowNewWith false true (0 : Nat) (createClass ["a"] false) (.dict false [("a", 1)]) = none
+    ∧ rowNewWith true false (0 : Nat) (createClass ["a"] false) (.dict false [("a", 1)]) = none
+    ∧ rowNewWith true true (0 : Nat) (createClass ["a"] false) (.dict false [("a", 1)]) = some [1] := by
+  decide
 
 /-- …whatever other row classes are created before or after it: the class with number `k` builds
 the same row at every later point of a session. -/
@@ -514,10 +826,11 @@ theorem public_collect_single_empty (names : List String) (c : ColRef) (i : Int)
     publicCollect names ([] : List (RowObj α)) [c] true limit = .one [] := by
   have hok := norm_limit_spec 0 (by decide) limit
   have hres' : [c].mapM (resolve names) = some [i] := by simp [hres]
-  unfold publicCollect
+  have hconv : Gen.CallSites.indexConvChecked = true := rfl
+  unfold publicCollect publicCollectWith
   rw [hres']
-  simp only [List.any_cons, List.any_nil, hfit, not_true_eq_false, decide_false, Bool.or_false,
-    Bool.false_eq_true, if_false, List.length_nil]
+  simp only [hconv, List.any_cons, List.any_nil, hfit, not_true_eq_false, decide_false, Bool.or_false,
+    Bool.false_eq_true, and_false, if_false, if_true, List.length_nil]
   cases hnl : normLimit limit 0 with
   | none => rw [hnl] at hok; exact absurd hok (by simp [limitOk])
   | some l =>
@@ -530,28 +843,65 @@ theorem public_collect_single_empty (names : List String) (c : ColRef) (i : Int)
 theorem measure_all_rows (n : Nat) (limit : Int) : specRows n (Gen.CallSites.measureLimit limit) = n := by
   simp [specRows]
 
+/-- **Which column reaches the helper**: the display hands `t.collect` the *position* of each printed
+column, in order (`Gen.CallSites.measureRefs`: the loop of `display.py:344` and the argument of
+`t.collect`, from the source) — never a name, which `DataFrame.collect` would resolve to the first
+column so named. -/
+theorem measure_refs_positions (names : List String) :
+    (Gen.CallSites.measureRefs names).map refOf
+      = (List.range names.length).map fun i => ColRef.idx (Int.ofNat i) := by
+  unfold Gen.CallSites.measureRefs
+  first
+    | (rw [List.map_map]; apply List.map_congr_left; intro i _; rfl)
+    | (rw [List.map_map]; exact zipIdx_map_snd names (fun i => ColRef.idx (Int.ofNat i)))
+
+/-- One measurement: the column at position `i` of the printed frame, all its rows. -/
+theorem measure_one_spec (names : List String) (trows : List (RowObj (Option Nat))) (limit : Int) (i : Nat)
+    (hi' : i < names.length)
+    (hn : ((trows.length : Nat) : Int) < 2147483648) (hw32 : ((names.length : Nat) : Int) ≤ 2147483648)
+    (hw : ∀ r ∈ trows, r.isTuple = true ∧ r.cells.length = names.length) :
+    measureOne names trows limit (.idx (Int.ofNat i)) = some (dataWidth (trows.map fun r => r.cells[i]!)) := by
+  unfold measureOne
+  cases trows with
+  | nil =>
+    rw [public_collect_single_empty names (.idx (Int.ofNat i)) (Int.ofNat i) _ rfl
+      (by unfold FitsC; simp only [Int.ofNat_eq_natCast]; omega)]
+    simp [widthOf]
+  | cons first rest =>
+    rw [public_collect_single_spec names first rest (.idx (Int.ofNat i)) (Int.ofNat i)
+      (Gen.CallSites.measureLimit limit) names.length hn hw32 hw rfl (by simp; omega)]
+    simp only [measure_all_rows, List.take_length, widthOf]
+    simp
+
 /-- **The display's data width**: for every printed frame `t` (head only, head + tail, or the whole
-table; eager or lazy) and every `limit`, the width measured for column `i` is the longest rendered
-non-null value among *all* rows of `t`, but at least four. -/
+table; eager or lazy), every `limit` and **every list of column names (repeated names included)**,
+the width measured for the column at position `i` is the longest rendered non-null value of *that*
+column among *all* rows of `t`, but at least four. -/
 theorem display_widths_spec (names : List String) (trows : List (RowObj (Option Nat))) (limit : Int)
     (hn : ((trows.length : Nat) : Int) < 2147483648) (hw32 : ((names.length : Nat) : Int) ≤ 2147483648)
     (hw : ∀ r ∈ trows, r.isTuple = true ∧ r.cells.length = names.length) :
     displayDataWidths names trows limit =
       (List.range names.length).map fun i => some (dataWidth (trows.map fun r => r.cells[i]!)) := by
+  have hrefs := measure_refs_positions names
   unfold displayDataWidths
+  have hmm : (Gen.CallSites.measureRefs names).map (fun ref => measureOne names trows limit (refOf ref))
+      = ((Gen.CallSites.measureRefs names).map refOf).map (measureOne names trows limit) := by
+    rw [List.map_map]; rfl
+  rw [hmm, hrefs, List.map_map]
   apply List.map_congr_left
   intro i hi
-  have hi' : i < names.length := List.mem_range.mp hi
-  cases trows with
-  | nil =>
-    rw [public_collect_single_empty names (.idx (Int.ofNat i)) (Int.ofNat i) _ rfl
-      (by unfold FitsC; simp only [Int.ofNat_eq_natCast]; omega)]
-    simp
-  | cons first rest =>
-    rw [public_collect_single_spec names first rest (.idx (Int.ofNat i)) (Int.ofNat i)
-      (Gen.CallSites.measureLimit limit) names.length hn hw32 hw rfl (by simp; omega)]
-    simp only [measure_all_rows, List.take_length]
-    simp
+  rw [Function.comp_apply]
+  exact measure_one_spec names trows limit i (List.mem_range.mp hi) hn hw32 hw
+
+/-- Measuring **by name** is not the same thing: when two columns carry one name, the later one is
+measured on the first one's values (`schema = ["value", "key", "value"]`, the long values in the last
+column: by name `[5, 4, 5]`, by position `[5, 4, 17]`). -/
+theorem display_by_name_counterexample :
+    displayDataWidthsByName ["value", "key", "value"]
+        [⟨true, [some 1, some 2, some 17]⟩, ⟨true, [some 5, none, some 10]⟩] 10 = [some 5, some 4, some 5]
+    ∧ displayDataWidths ["value", "key", "value"]
+        [⟨true, [some 1, some 2, some 17]⟩, ⟨true, [some 5, none, some 10]⟩] 10 = [some 5, some 4, some 17] := by
+  decide
 
 /-- Non-vacuity of the call-site theorems. -/
 example : publicCollect ["a", "b"] [⟨true, [1, 2]⟩, ⟨true, [3, 4]⟩, ⟨true, [5, 6]⟩] [.name "b", .idx 0] false (some 0)
@@ -562,8 +912,10 @@ example : publicCollect ["a", "b"] [⟨true, [1, 2]⟩, ⟨true, [3, 4]⟩, ⟨t
     = (.one [2, 4] : PubOutcome Nat) ∧
   publicCollect ["a", "b"] [⟨true, [1, 2]⟩, ⟨true, [3, 4]⟩] [.idx 0] false (some 4294967296)
     = (.many [[1, 3]] : PubOutcome Nat) := by decide
-example : rowNew 0 (createClass ["x", "y", "z"] false) (.dict [("z", 3), ("x", 1), ("q", 9)]) = some [1, 0, 3] := by decide
+example : rowNew 0 (createClass ["x", "y", "z"] false) (.dict false [("z", 3), ("x", 1), ("q", 9)]) = some [1, 0, 3] := by decide
 example : displayDataWidths ["a", "b"] [⟨true, [some 2, none]⟩, ⟨true, [some 1, some 3]⟩, ⟨true, [some 9, some 12]⟩] 1
     = [some 9, some 12] := by decide
+example : displayDataWidths ["1", "0", "1"] [⟨true, [some 2, none, some 8]⟩, ⟨true, [some 1, some 3, none]⟩] 0
+    = [some 4, some 4, some 8] := by decide
 
 end C10
